@@ -247,6 +247,11 @@ func (c *Ctx) unsafeBuiltin(name string, args []Value) (Value, bool) {
 		if p.obj == nil {
 			return SliceV{}, true
 		}
+		if at, ok := under(c.typeOfPtr(p)).(*types.Array); ok && int(at.Len()) >= n {
+			// a pointer to a whole array reinterpreted as a pointer to its first element
+			// (e.g. (*byte)(unsafe.Pointer(&uuid)))
+			return SliceV{base: p, off: 0, len: n, cap: n}, true
+		}
 		base, off := elemPtr(p)
 		return SliceV{base: base, off: off, len: n, cap: n}, true
 	case "SliceData":
